@@ -5,6 +5,7 @@ import (
 	"bytes"
 	"compress/gzip"
 	"fmt"
+	"io"
 	"math/rand"
 	"os"
 	"path/filepath"
@@ -16,7 +17,10 @@ import (
 	"helm.sh/helm/v4/pkg/chart/v2/loader"
 	chartutil "helm.sh/helm/v4/pkg/chart/v2/util"
 	"helm.sh/helm/v4/pkg/engine"
+	kubefake "helm.sh/helm/v4/pkg/kube/fake"
 	release "helm.sh/helm/v4/pkg/release/v1"
+	"helm.sh/helm/v4/pkg/storage"
+	"helm.sh/helm/v4/pkg/storage/driver"
 	"helm.sh/helm/v4/verifh/env"
 	"helm.sh/helm/v4/verifh/gen"
 )
@@ -88,6 +92,7 @@ func renderInstall(ch *chart.Chart, vals map[string]any, f flags, cfg *action.Co
 	in.DryRun, in.ClientOnly, in.Replace = true, true, true
 	in.ReleaseName, in.Namespace = "rel", "ns1"
 	in.SubNotes, in.IncludeCRDs, in.DisableHooks, in.IsUpgrade, in.EnableDNS = f.SubNotes, f.IncludeCRDs, f.DisableHooks, f.IsUpgrade, f.EnableDNS
+	in.APIVersions = append([]string(nil), f.APIVersions...)
 	var rel *release.Release
 	var err error
 	func() {
@@ -99,6 +104,48 @@ func renderInstall(ch *chart.Chart, vals map[string]any, f flags, cfg *action.Co
 		rel, err = in.Run(ch, env.DeepCopyMap(vals))
 	}()
 	return snapOf(rel, err)
+}
+
+// dryRunOnConfig is a (non client-only) dry-run install on a configuration that already carries
+// capabilities, e.g. the ones a previous client-only render on the same configuration left there.
+func dryRunOnConfig(ch *chart.Chart, vals map[string]any, f flags, cfg *action.Configuration) snap {
+	in := action.NewInstall(cfg)
+	in.DryRun, in.Replace = true, true
+	in.ReleaseName, in.Namespace = "rel", "ns1"
+	in.SubNotes, in.IncludeCRDs, in.DisableHooks, in.IsUpgrade, in.EnableDNS = f.SubNotes, f.IncludeCRDs, f.DisableHooks, f.IsUpgrade, f.EnableDNS
+	var rel *release.Release
+	var err error
+	func() {
+		defer func() {
+			if x := recover(); x != nil {
+				err = fmt.Errorf("PANIC in install: %v", x)
+			}
+		}()
+		rel, err = in.Run(ch, env.DeepCopyMap(vals))
+	}()
+	return snapOf(rel, err)
+}
+
+func offlineConfig() *action.Configuration {
+	return &action.Configuration{Releases: storage.Init(driver.NewMemory()), KubeClient: &kubefake.PrintingKubeClient{Out: io.Discard}}
+}
+
+// neighbour is an unrelated small chart rendered (client-only) on its own configuration with its
+// own single extra API version between / next to the renders under comparison.
+var neighbourFiles = gen.Files{
+	"Chart.yaml":        "apiVersion: v2\nname: neighbour\nversion: 0.1.0\n",
+	"templates/cm.yaml": "apiVersion: v1\nkind: ConfigMap\nmetadata:\n  name: nb\ndata:\n" + capsLine(0),
+}
+
+func renderNeighbour(own []string) snap {
+	extra := apiVersionPool[0]
+	for _, c := range apiVersionPool {
+		if len(own) == 0 || c != own[0] {
+			extra = c
+			break
+		}
+	}
+	return renderInstall(neighbourFiles.Build(), map[string]any{}, flags{APIVersions: []string{extra}}, offlineConfig())
 }
 
 // differing returns the names of the components in which two renders differ. On errors only
@@ -212,7 +259,7 @@ func featureClass(comp string, cs *chartSpec) string {
 	case "notes":
 		return fmt.Sprintf("subnotes=%v notes-files%s", cs.Flags.SubNotes, bucket2(cs.Feat.NotesFiles))
 	case "manifest":
-		return fmt.Sprintf("include-crds=%v sibling-subcharts-with-crds%s", cs.Flags.IncludeCRDs, bucket2(cs.Feat.CRDSibs))
+		return fmt.Sprintf("include-crds=%v sibling-subcharts-with-crds%s extra-api-versions=%d", cs.Flags.IncludeCRDs, bucket2(cs.Feat.CRDSibs), len(cs.Flags.APIVersions))
 	case "manifest/archive-member-order":
 		return fmt.Sprintf("include-crds=%v crd-files-in-one-chart%s", cs.Flags.IncludeCRDs, bucket2(cs.Feat.MaxCRDFilesInChart))
 	case "hooks":
